@@ -394,3 +394,4 @@ PROP = C10()
 
 PROP.rule += (" Strata added while closing seeded changes (DESIGN section 10): "
               'comma/tab/decimal-comma documents, overwritten paths, BOM + explicit utf-8, ground truth for non-ASCII header fields incl. invisible, non-NFC and case-quirk characters, very long first lines, first non-ASCII character aligned with 4000/4096/8192-byte boundaries.')
+PROP.rule += ' Round 8: 64 KiB alignments, encoding= together with autodetect_encoding=False.'
